@@ -9,11 +9,11 @@ prop(
     needs_bin=True,
     stages=[
         dict(run="^TestPropTotality$",
-             quick=dict(checks=12800, shards=16, timeout=900),
-             thorough=dict(checks=800000, shards=16, timeout=7200)),
+             quick=dict(checks=9600, shards=32, parallel=32, timeout=900),
+             thorough=dict(checks=160000, shards=32, parallel=32, timeout=7200)),
         dict(run="^TestPropBinary$",
-             quick=dict(checks=320, shards=16, timeout=900),
-             thorough=dict(checks=16000, shards=16, timeout=7200)),
+             quick=dict(checks=320, shards=16, parallel=16, timeout=900),
+             thorough=dict(checks=4800, shards=16, parallel=16, timeout=7200)),
     ],
     rule="pintcfg.Gen: ci, parser, owners, repository, prometheus (refused port 127.0.0.1:1), discovery (filepath / prometheusQuery "
          "with templates), checks, check \"promql/series\" / \"promql/regexp\" and 0-3 rule{} blocks with match/ignore sub-blocks and "
